@@ -2,8 +2,8 @@
 """Apply each behaviour-preserving refactoring (refactors/<id>/round6_k.diff, made by a sub-agent that saw
 only the property text and was asked NOT to change behaviour) to /repo's working tree, run
 ./check <id> --tier quick and expect silence (exit 0, no VIOLATION line); undo with git checkout.
-`--all` instead applies every refactoring that still applies on top of the others at once and runs all
-twenty quick checks on that tree.  Writes refactors/results.json.  Not part of any check."""
+`--all` instead applies the refactorings in bundles (greedily: every patch that still applies on top of the ones
+already applied; the rest form the next bundle) and runs all twenty quick checks on each bundle's tree.  Writes refactors/results.json.  Not part of any check."""
 import json
 import subprocess
 import sys
@@ -33,22 +33,33 @@ def main():
         sys.exit("/repo/src is not clean")
     diffs = [(d.name, diff) for d in sorted(p for p in ROOT.iterdir() if p.is_dir()) for diff in sorted(d.glob("*.diff"))]
     if "--all" in sys.argv:
-        applied = []
-        try:
-            for pid, diff in diffs:
-                if run(["git", "-C", "/repo", "apply", str(diff)]).returncode == 0:
-                    applied.append(f"{pid}/{diff.stem}")
-            print("applied together:", len(applied), "of", len(diffs), flush=True)
-            out = {}
-            for i in range(1, 21):
-                pid = f"C{i:02d}"
-                if want and pid not in want:
-                    continue
-                out[pid] = check(pid)
-                print("all-together", pid, out[pid]["outcome"], out[pid]["first"], flush=True)
-            results["all-together"] = dict(applied=applied, checks=out)
-        finally:
-            run(["git", "-C", "/repo", "checkout", "--", "."])
+        # bundles: greedily apply every remaining patch that still applies on top of the ones already applied, run all
+        # twenty quick checks on that tree, repeat with the patches that did not fit until none is left
+        remaining, bundles = list(diffs), []
+        while remaining:
+            applied, left = [], []
+            try:
+                for pid, diff in remaining:
+                    if run(["git", "-C", "/repo", "apply", str(diff)]).returncode == 0:
+                        applied.append(f"{pid}/{diff.stem}")
+                    else:
+                        left.append((pid, diff))
+                if not applied:
+                    bundles.append(dict(applied=[], does_not_apply=[f"{a}/{b.stem}" for a, b in left]))
+                    break
+                print(f"bundle {len(bundles) + 1}: {len(applied)} patches applied together: {' '.join(applied)}", flush=True)
+                out = {}
+                for i in range(1, 21):
+                    pid = f"C{i:02d}"
+                    if want and pid not in want:
+                        continue
+                    out[pid] = check(pid)
+                    print(f"bundle {len(bundles) + 1}", pid, out[pid]["outcome"], out[pid]["first"], flush=True)
+                bundles.append(dict(applied=applied, checks=out))
+            finally:
+                run(["git", "-C", "/repo", "checkout", "--", "."])
+            remaining = left
+        results["all-together"] = bundles
         res_path.write_text(json.dumps(results, indent=1) + "\n")
         return
     for pid, diff in diffs:
